@@ -1751,9 +1751,10 @@ class ContractionTree:
                 tree._remove_node(p)
                 tree.contract_nodes_pair(l, r)
 
-        # reset caches
+        # reset caches, including the explicit contraction indices, since
+        # parents of re-created nodes hold recipes referring to the old nodes
         tree.already_optimized.clear()
-        tree.contraction_cores.clear()
+        tree.reset_contraction_indices()
 
         return tree
 
